@@ -1411,6 +1411,11 @@ func (e *Engine) convert(fr *Frame, st *State, ins ssa.Instruction, v Value, fro
 		r := e.freshStr(st, "runestr")
 		st.assume(Le(Num(1), r.Len))
 		st.assume(Le(r.Len, Num(4)))
+		// an ASCII code point encodes as itself
+		if t, ok := v.(*Term); ok {
+			ascii := And(Le(Num(0), t), Lt(t, Num(128)))
+			st.assume(Implies(ascii, And(Eq(r.Len, Num(1)), Eq(Select(r.Arr, r.Off), t))))
+		}
 		return r
 	case isFloat(to) || isFloat(from):
 		return e.fresh(st, to, "float")
